@@ -760,7 +760,7 @@ def r110(db, ctx):
               and not f.promoted_of and f.kind in ('AssocFn', 'Fn')]:
         e = ret(f)
         # possibly through the sibling (`self.unstripe().into()`), or wrapped in the Scores constructor
-        while e is not None and e[0] == 'call' and len(e[2]) == 1 and e[1].endswith(('Scores::new', 'Scores::from', 'From::from', 'Into::into', 'Vec::from')):
+        while e is not None and e[0] == 'call' and len(e[2]) == 1 and e[1].endswith(('Scores::new', 'Scores::from', 'From::from', 'Into::into', 'Vec::from', 'scores::from')):
             e = e[2][0]
         via_sibling = e is not None and m(('call~', 'StripedScores::unstripe', (('p', 1),)), e) is not None and not f.path.endswith('::unstripe')
         if e is not None and (m(coll, e) is not None or via_sibling):
